@@ -136,6 +136,7 @@ type CertSpec struct {
 	Extra        []pkix.Extension
 	IssuerName   *pkix.Name // override the issuer name (nil: parent's subject)
 	EmptySubject bool       // empty subject DN, identity in a critical subjectAltName (RFC 5280 4.1.2.6)
+	AKI          []byte     // authority key identifier of a self-issued certificate (nil: none; issued certificates carry the parent's subject key identifier)
 }
 
 type Cert struct {
@@ -205,6 +206,9 @@ func Issue(spec CertSpec, parent *Cert, signKey crypto.Signer) *Cert {
 		IsCA:                  spec.IsCA,
 		OCSPServer:            spec.OCSP,
 		CRLDistributionPoints: spec.CRL,
+	}
+	if spec.AKI != nil {
+		tmpl.AuthorityKeyId = spec.AKI
 	}
 	if spec.EmptySubject {
 		tmpl.Subject = pkix.Name{}
